@@ -10,6 +10,24 @@ from .values import (BoolV, IntV, RealV, StrV, NoneV, NONE, TupleV, ListV, SeqV,
                      ObjV, V, StrSort, ElemType)
 
 
+def has_quantifier(expr: Any) -> bool:
+    """True when the term contains a quantifier or a lambda (kept out of the light solver)."""
+    if not z3.is_expr(expr):
+        return False
+    seen: set[int] = set()
+    todo = [expr]
+    while todo:
+        cur = todo.pop()
+        key = cur.get_id()
+        if key in seen:
+            continue
+        seen.add(key)
+        if z3.is_quantifier(cur):
+            return True
+        todo.extend(cur.children())
+    return False
+
+
 class Unsupported(Exception):
     """The function left the supported subset: no obligation is generated, never a violation."""
 
@@ -52,6 +70,7 @@ class Ctx:
     def __init__(self, prove_timeout_ms: int = PROVE_TIMEOUT_MS) -> None:
         self.solver = z3.Solver()
         self.solver.set("timeout", FEAS_TIMEOUT_MS)
+        self.light = z3.Solver()
         self.pc: list[Any] = []
         self.trace: list[list[int]] = []     # [choice, n_alternatives]
         self.pos = 0
@@ -102,6 +121,10 @@ class Ctx:
     def reset_path(self) -> None:
         self.solver = z3.Solver()
         self.solver.set("timeout", FEAS_TIMEOUT_MS)
+        # quantifier-free part of the path condition: used for feasibility (pruning) only; an
+        # over-approximation there merely explores paths that the full solver later shows vacuous
+        self.light = z3.Solver()
+        self.light.set("timeout", FEAS_TIMEOUT_MS)
         self.pc = []
         self.pos = 0
         self.counter = 0
@@ -119,17 +142,27 @@ class Ctx:
     def _sync_axioms(self) -> None:
         while self._axioms_added < len(self.axioms):
             self.solver.add(self.axioms[self._axioms_added])
+            self.light.add(self.axioms[self._axioms_added])
             self._axioms_added += 1
         while self._ghost_added < len(self.ghost_axioms):
-            self.solver.add(self.ghost_axioms[self._ghost_added])
+            fact = self.ghost_axioms[self._ghost_added]
+            self.solver.add(fact)
+            if not has_quantifier(fact):
+                self.light.add(fact)
             self._ghost_added += 1
 
     def assume(self, cond: Any) -> None:
         cond = z3.simplify(cond) if z3.is_expr(cond) else z3.BoolVal(bool(cond))
         if z3.is_true(cond):
             return
+        if z3.is_and(cond):
+            for child in cond.children():
+                self.assume(child)
+            return
         self.pc.append(cond)
         self.solver.add(cond)
+        if not has_quantifier(cond):
+            self.light.add(cond)
 
     def _check(self, *extra: Any, timeout_ms: int = FEAS_TIMEOUT_MS) -> Any:
         self._sync_axioms()
@@ -140,8 +173,14 @@ class Ctx:
         return res
 
     def feasible(self, cond: Any) -> bool:
-        """False only when pc ∧ cond is definitely unsatisfiable."""
-        return self._check(cond) != z3.unsat
+        """False only when pc ∧ cond is definitely unsatisfiable (decided on the quantifier-free part)."""
+        self._sync_axioms()
+        if has_quantifier(cond):
+            return self._check(cond) != z3.unsat
+        started = time.time()
+        res = self.light.check(cond)
+        self.solver_s += time.time() - started
+        return res != z3.unsat
 
     def decide(self, n_alternatives: int, feasible_fn: Optional[Callable[[int], bool]] = None) -> int:
         """n-way choice point recorded in the trace (depth-first by re-execution)."""
@@ -315,6 +354,7 @@ def sub_explore(ctx: Ctx, thunk: Callable[[], Any], max_paths: int = 600) -> lis
             ctx._sync_axioms()
             added = (ctx._axioms_added, ctx._ghost_added)
             ctx.solver.push()
+            ctx.light.push()
             try:
                 value = thunk()
                 results.append((list(ctx.pc[base:]), value))
@@ -323,6 +363,7 @@ def sub_explore(ctx: Ctx, thunk: Callable[[], Any], max_paths: int = 600) -> lis
             finally:
                 del ctx.pc[base:]
                 ctx.solver.pop()
+                ctx.light.pop()
                 ctx._axioms_added, ctx._ghost_added = added
             count += 1
             if count > max_paths:
